@@ -39,11 +39,11 @@ Qed.
    (holds for the pinned source and for the repaired one); the guard is the model's guard *)
 Lemma grid_index_tie_Z p cs : (exists c, In c cs /\ Z.ltb p c = true) -> grid_index_src Z.ltb p cs = grid_index Z.ltb p cs.
 Proof.
-  intros H. first [reflexivity | exact (grid_index_fix_agrees Z.ltb 0%Z p cs H)].
+  intros H. first [reflexivity | exact (grid_index_fix_agrees Z.ltb p cs H)].
 Qed.
 Lemma grid_index_tie_R p cs : (exists c, In c cs /\ Rltb p c = true) -> grid_index_src Rltb p cs = grid_index Rltb p cs.
 Proof.
-  intros H. first [reflexivity | exact (grid_index_fix_agrees Rltb 0 p cs H)].
+  intros H. first [reflexivity | exact (grid_index_fix_agrees Rltb p cs H)].
 Qed.
 Lemma grid_index_src_cases (A : Type) (ltb : A -> A -> bool) p cs :
   grid_index_src ltb p cs = grid_index ltb p cs \/ grid_index_src ltb p cs = grid_index_fix ltb p cs.
